@@ -44,16 +44,16 @@ def generate(rng, tier):
                "fresh": k < n_fresh * 3 and k % 3 == 0 and len(ecs) >= 2}
 
 
-def apply_chain(cube, chain):
+def apply_chain(cube, chain, npint=False):
     for items in chain:
-        cube = cube[C.to_py_index(items)]
+        cube = cube[C.to_py_index(items, npint=npint)]
     return cube
 
 
 def observe_order(case):
     """What must be identical from run to run (called in fresh interpreters too)."""
     cube = E.build_cube(case["shape"], case["fam"], case["wseed"], case["ecs"])
-    s = apply_chain(cube, case["chain"])
+    s = apply_chain(cube, case["chain"], C.npint_of(case))
     ec = s.extra_coords
     return {"keys": list(ec.keys() or []), "mapping": [int(m) for m in ec.mapping],
             "types": E.ec_types(s), "combined": [str(t) for t in s.combined_wcs.low_level_wcs.world_axis_physical_types]}
@@ -115,7 +115,7 @@ def run(case):
         if [d[0] for d in deps] != orig_names:
             raise RuntimeError(f"layout names {deps} vs cube keys {orig_names}")
         try:
-            s = apply_chain(cube, case["chain"])
+            s = apply_chain(cube, case["chain"], C.npint_of(case))
             ec = s.extra_coords
             keys = list(ec.keys() or [])
             mapping = [int(m) for m in ec.mapping]
